@@ -15,9 +15,9 @@ RULE = ("one case = (method family incl. FSAL / implicit with finite-difference 
         "invocations; distinct by (method, options, seed)")
 ASSUMPTIONS = ["njev may count since construction or since the last reset (the statement fixes the reset convention only for nfev)"]
 FLOORS = {"quick": {"runs": 120, "callback_invocations": 1500, "nfev_checks": 1500, "njev_checks": 100, "runs_with_rejections": 20, "runs_with_failure": 15, "runs_with_reset": 30,
-                    "dt_assignments_checked": 150, "terminal_landings": 10, "facade_runs": 20, "dt_assignments_across_calls": 20, "shared_rhs_runs": 14},
+                    "dt_assignments_checked": 150, "terminal_landings": 10, "facade_runs": 20, "dt_assignments_across_calls": 20, "shared_rhs_runs": 14, "grown_dt_runs_with_rejections": 6, "richardson_of_implicit_runs": 3},
           "thorough": {"runs": 1200, "callback_invocations": 15000, "nfev_checks": 15000, "njev_checks": 1000, "runs_with_rejections": 200, "runs_with_failure": 150,
-                       "runs_with_reset": 300, "dt_assignments_checked": 1500, "terminal_landings": 100, "facade_runs": 200, "dt_assignments_across_calls": 200, "shared_rhs_runs": 140}}
+                       "runs_with_reset": 300, "dt_assignments_checked": 1500, "terminal_landings": 100, "facade_runs": 200, "dt_assignments_across_calls": 200, "shared_rhs_runs": 140, "grown_dt_runs_with_rejections": 36, "richardson_of_implicit_runs": 18}}
 METHODS = ["RK45CKSolver", "DOPRI45", "RK4Solver", "EulerSolver", "HeunEulerSolver", "ABAs5o6HSolver", "SymplecticEulerSolver", "BackwardEuler", "RadauIIA5",
            "GaussLegendre4", "LobattoIIIA2", "CrankNicolson", "RK8713MSolver", "R:MidpointSolver:3", "R:EulerSolver:4", "R:RK4Solver:2"]
 CASE_TIMEOUT = 900
@@ -35,6 +35,20 @@ def gen_cases(tier, seed):
         cases.append(dict(method=m, direction=int(rng.choice([-1, 1])), dense=bool(rng.random() < 0.4), events=str(rng.choice(["none", "none", "nonterminal", "terminal"])),
                           user_jac=bool(rng.random() < 0.5), big_dt=bool(rng.random() < 0.35), fail_at=(int(rng.integers(20, 200)) if rng.random() < 0.2 else None),
                           reset=bool(rng.random() < 0.35), set_dt=bool(rng.random() < 0.6), pseed=int(rng.integers(1 << 30)), cost=3))
+    # designed strata (own random stream): a callback that GROWS the step after every recorded step (adaptive methods then reject and retry the
+    # attempt, and the next assignment is again longer than what the controller proposes after a rejection) - the assigned step must still be the
+    # first attempt of the next step; Richardson wrappers of IMPLICIT bases (each level steps the basis method on the same wrapped rhs:
+    # all of those evaluations and Jacobian requests belong to the system's counters)
+    rng2 = rng_for(2003, seed)
+    for rep in range(1 if tier == "quick" else 6):
+        for m in ["RK45CKSolver", "DOPRI45", "HeunEulerSolver", "RK8713MSolver", "RadauIIA5", "RK4Solver", "LobattoIIIC4"]:
+            for d in (1, -1):
+                cases.append(dict(method=m, direction=d, dense=bool(rng2.random() < 0.3), events="none", user_jac=bool(rng2.random() < 0.5), big_dt=False, fail_at=None,
+                                  reset=bool(rng2.random() < 0.3), set_dt="grow", pseed=int(rng2.integers(1 << 30)), cost=4))
+        for m in ["R:ImplicitMidpoint:2", "R:BackwardEuler:3", "R:CrankNicolson:2"]:
+            cases.append(dict(method=m, direction=int(rng2.choice([-1, 1])), dense=bool(rng2.random() < 0.3), events=str(rng2.choice(["none", "nonterminal"])),
+                              user_jac=bool(rng2.random() < 0.5), big_dt=False, fail_at=None, reset=bool(rng2.random() < 0.5), set_dt=False, L=0.5, rtol=1e-4,
+                              pseed=int(rng2.integers(1 << 30)), cost=20))
     plain = [m for m in METHODS if not m.startswith("R:")]
     for i in range(24 if tier == "quick" else 240):
         # the functional facade with t_eval (one integrate call per output time) and user callbacks: counters and the dt-assignment clause
@@ -234,7 +248,7 @@ def run_case(spec):
     prob = Manufactured(2, spec["pseed"], direction=d)
     rng = rng_for(2002, spec["pseed"])
     t0 = 0.1
-    L = 2.0
+    L = float(spec.get("L", 2.0))
     tf = t0 + d * L
     cnt = {"f": 0, "started": 0, "jac_user": 0, "fail_at": spec["fail_at"]}
 
@@ -259,7 +273,9 @@ def run_case(spec):
     ds.DiffRHS.jac = counting_jac
     try:
         dt0 = L / 20.0 if not spec["big_dt"] else 5.0 * L
-        system = sysrun.make_system(f, prob.ystar(t0).astype(np.float64), t0, tf, dt0, cls, dense=spec["dense"], rtol=1e-6, atol=1e-8)
+        system = sysrun.make_system(f, prob.ystar(t0).astype(np.float64), t0, tf, dt0, cls, dense=spec["dense"], rtol=float(spec.get("rtol", 1e-6)), atol=float(spec.get("rtol", 1e-6)) * 1e-2)
+        if rich and not info["explicit"]:
+            rec.bump("richardson_of_implicit_runs")
         if spec["user_jac"] and not info["explicit"]:
             def uj(t, y, **kw):
                 cnt["jac_user"] += 1
@@ -271,13 +287,19 @@ def run_case(spec):
         slog = StepLog(system.integrator) if not rich else None
         calls = []          # (which callback, len(system), nfev, completed, t_last)
         assigned = {}       # len(system) at assignment -> assigned dt
+        grow = {"n": 0}
 
         def cb1(s):
             calls.append((1, len(s), s.nfev, cnt["f"], float(s.t[-1])))
 
         def cb2(s):
             calls.append((2, len(s), s.nfev, cnt["f"], float(s.t[-1])))
-            if spec["set_dt"] and len(s) % 3 == 0:
+            if spec["set_dt"] == "grow":
+                newdt = float(np.sign(float(s.dt))) * min(abs(float(s.dt)) * 4.0, L / 3.0)
+                s.dt = newdt
+                assigned[len(s)] = float(s.dt)
+                grow["n"] += 1
+            elif spec["set_dt"] and len(s) % 3 == 0:
                 newdt = float(s.dt) * 0.5
                 s.dt = newdt
                 assigned[len(s)] = float(s.dt)
@@ -302,6 +324,8 @@ def run_case(spec):
             # rejected attempts: more attempts than recorded steps
             if len([a for a in slog.attempts]) > len(system) - 1 + 1:
                 rec.bump("runs_with_rejections")
+                if spec["set_dt"] == "grow":
+                    rec.bump("grown_dt_runs_with_rejections")
         if spec["events"] == "terminal" and system.integration_status.startswith("Integration terminated"):
             rec.bump("terminal_landings")
         if spec["reset"]:
